@@ -423,29 +423,95 @@ def extract_together_iteration(repo):
 
 
 def extract_q_separators(repo):
-    """`QSerialization.child_separators` (django_evolution/serialization.py): connector -> operator text"""
+    """`QSerialization.child_separators` (django_evolution/serialization.py): connector -> operator text;
+    the dict literal plus `child_separators[<key>] = '<text>'` statements in the class body"""
     tree = ast.parse(_src(repo, 'django_evolution/serialization.py'))
     cls = _find_class(tree, 'QSerialization')
+
+    def key_of(k):
+        if isinstance(k, ast.Attribute) and isinstance(k.value, ast.Name) and k.value.id == 'Q':
+            return k.attr
+        if isinstance(k, ast.Constant):
+            return k.value
+        if isinstance(k, ast.Call) and isinstance(k.func, ast.Name) and k.func.id == 'getattr' and \
+                len(k.args) >= 2 and isinstance(k.args[1], ast.Constant):
+            return k.args[1].value
+        raise ExtractError('child_separators key not understood: %s' % ast.dump(k))
+    out = None
     for n in cls.body:
         if isinstance(n, ast.Assign) and any(isinstance(t, ast.Name) and t.id == 'child_separators' for t in n.targets):
             if not isinstance(n.value, ast.Dict):
                 raise ExtractError('child_separators is not a dict literal')
             out = []
             for k, v in zip(n.value.keys, n.value.values):
-                if isinstance(k, ast.Attribute) and isinstance(k.value, ast.Name) and k.value.id == 'Q':
-                    key = k.attr
-                elif isinstance(k, ast.Constant):
-                    key = k.value
-                elif isinstance(k, ast.Call) and isinstance(k.func, ast.Name) and k.func.id == 'getattr' and \
-                        len(k.args) >= 2 and isinstance(k.args[1], ast.Constant):
-                    key = k.args[1].value
-                else:
-                    raise ExtractError('child_separators key not understood: %s' % ast.dump(k))
                 if not isinstance(v, ast.Constant):
                     raise ExtractError('child_separators value not a literal')
-                out.append((key, v.value))
-            return out
-    raise ExtractError('QSerialization.child_separators not found')
+                out.append((key_of(k), v.value))
+    if out is None:
+        raise ExtractError('QSerialization.child_separators not found')
+    for n in cls.body:
+        for sub in ast.walk(n):
+            if isinstance(sub, ast.Assign) and len(sub.targets) == 1 and isinstance(sub.targets[0], ast.Subscript) and \
+                    isinstance(sub.targets[0].value, ast.Name) and sub.targets[0].value.id == 'child_separators':
+                if not isinstance(sub.value, ast.Constant):
+                    raise ExtractError('child_separators value not a literal')
+                out.append((key_of(sub.targets[0].slice), sub.value.value))
+    return out
+
+
+def extract_py_rendering(repo):
+    """Facts about QSerialization / CombinedExpressionSerialization.serialize_to_python that the
+    Lean printer model is parameterised by."""
+    tree = ast.parse(_src(repo, 'django_evolution/serialization.py'))
+    out = {'q_single_child_full': False, 'comb_operators': [], 'comb_methods': [], 'comb_parens': False}
+    qcls = _find_class(tree, 'QSerialization')
+    fn = _find_func(qcls, 'serialize_to_python')
+    for n in ast.walk(fn):
+        if isinstance(n, ast.If) and isinstance(n.test, ast.Compare) and isinstance(n.test.left, ast.Name) and \
+                n.test.left.id == 'num_children' and len(n.test.comparators) == 1 and \
+                isinstance(n.test.comparators[0], ast.Constant) and n.test.comparators[0].value == 1:
+            body = ast.Module(body=n.body, type_ignores=[])
+            has_isq = any(isinstance(c, ast.Call) and isinstance(c.func, ast.Name) and c.func.id == 'isinstance' and
+                          len(c.args) == 2 and isinstance(c.args[1], ast.Name) and c.args[1].id == 'Q'
+                          for c in ast.walk(body))
+            has_conn = any(isinstance(c, ast.Constant) and isinstance(c.value, str) and '_connector' in c.value
+                           for c in ast.walk(body))
+            out['q_single_child_full'] = bool(has_isq and has_conn)
+    ccls = _find_class(tree, 'CombinedExpressionSerialization')
+    for n in ccls.body:
+        if isinstance(n, ast.Assign) and len(n.targets) == 1 and isinstance(n.targets[0], ast.Name) and \
+                n.targets[0].id in ('_python_operators', '_python_methods') and isinstance(n.value, ast.Dict):
+            items = []
+            for k, v in zip(n.value.keys, n.value.values):
+                if not (isinstance(k, ast.Constant) and isinstance(v, ast.Constant)):
+                    raise ExtractError('%s is not a literal table' % n.targets[0].id)
+                items.append((k.value, v.value))
+            out['comb_operators' if n.targets[0].id == '_python_operators' else 'comb_methods'] = items
+    helper = None
+    for n in ccls.body:
+        if isinstance(n, ast.FunctionDef) and n.name != 'serialize_to_python':
+            isinst = any(isinstance(c, ast.Call) and isinstance(c.func, ast.Name) and c.func.id == 'isinstance' and
+                         len(c.args) == 2 and isinstance(c.args[1], ast.Name) and c.args[1].id == 'CombinedExpression'
+                         for c in ast.walk(n))
+            paren = any(isinstance(c, ast.Constant) and c.value == '(%s)' for c in ast.walk(n))
+            if isinst and paren:
+                helper = n.name
+    cfn = _find_func(ccls, 'serialize_to_python')
+    if helper:
+        sides = set()
+        for c in ast.walk(cfn):
+            if isinstance(c, ast.Call) and isinstance(c.func, ast.Attribute) and c.func.attr == helper and \
+                    len(c.args) == 1 and isinstance(c.args[0], ast.Attribute) and isinstance(c.args[0].value, ast.Name) \
+                    and c.args[0].value.id == 'value':
+                sides.add(c.args[0].attr)
+        out['comb_parens'] = sides == {'lhs', 'rhs'}
+    # the tables only count when serialize_to_python consults them
+    used = set(c.attr for c in ast.walk(cfn) if isinstance(c, ast.Attribute))
+    if '_python_operators' not in used:
+        out['comb_operators'] = []
+    if '_python_methods' not in used:
+        out['comb_methods'] = []
+    return out
 
 
 def regenerate(repo, outdir):
@@ -477,6 +543,17 @@ def regenerate(repo, outdir):
     parts.append('/-- `QSerialization.child_separators` (django_evolution/serialization.py) -/')
     parts.append('def qSeparators : List (String × String) := ' + lean_list(
         '(%s, %s)' % (lean_str(k), lean_str(v)) for k, v in seps))
+    pyr = extract_py_rendering(repo)
+    flags['py_rendering'] = pyr
+    parts.append('/-- the single-child branch of QSerialization.serialize_to_python passes a Q child positionally and keeps a non-default connector -/')
+    parts.append('def qSingleChildFull : Bool := ' + ('true' if pyr['q_single_child_full'] else 'false'))
+    parts.append('/-- `CombinedExpressionSerialization._python_operators` / `_python_methods` (as consulted by serialize_to_python) -/')
+    parts.append('def combOperators : List (String × String) := ' + lean_list(
+        '(%s, %s)' % (lean_str(k), lean_str(v)) for k, v in pyr['comb_operators']))
+    parts.append('def combMethods : List (String × String) := ' + lean_list(
+        '(%s, %s)' % (lean_str(k), lean_str(v)) for k, v in pyr['comb_methods']))
+    parts.append('/-- both operands of a CombinedExpression are parenthesised when they are CombinedExpressions -/')
+    parts.append('def combParens : Bool := ' + ('true' if pyr['comb_parens'] else 'false'))
     titer = extract_together_iteration(repo)
     flags['together_iteration'] = titer
     parts.append('')
